@@ -42,7 +42,7 @@ ASSUMPTIONS = [
 ]
 REQUIRED_CATEGORIES = [
     "members", "zero_dissipation_u10_zero", "finite_result", "balance_checked", "balance_closed_by_sign_change",
-    "direction_checked", "batch_size_1", "batch_size_8", "finite_depth", "dedt_inside", "dedt_outside",
+    "direction_checked", "direction_checked_bimodal", "batch_size_1", "batch_size_8", "finite_depth", "dedt_inside", "dedt_outside",
     "pair_st4/st4", "pair_st4/st6", "root_in_2_40_and_finite",
 ]
 
@@ -52,16 +52,13 @@ GRIDS = {
     "g12x16": (0.04, 0.6, 12, 16),
     "g24x36": (0.035, 0.8, 24, 36),
 }
-HS = [0.5, 2.0, 5.0]
-FP = [0.08, 0.15, 0.3]
+HS = {"quick": [0.5, 2.0, 5.0], "thorough": [0.5, 1.0, 2.0, 3.5, 5.0]}
+FP = {"quick": [0.08, 0.15, 0.3], "thorough": [0.08, 0.1, 0.15, 0.2, 0.3]}
+WIDTHS = {"quick": [30.0], "thorough": [15.0, 30.0, 40.0]}
 MEANS = [45.0 * k for k in range(8)]
 DEPTHS = [float("inf"), 20.0]
 PAIRS = ["st4/st4", "st4/st6"]
-WIDTH = 30.0
-VARIANTS = {
-    "quick": ["none", "in+10", "out-10"],
-    "thorough": ["none", "in+10", "in-10", "out+10", "out-10"],
-}
+VARIANTS = ["none", "in+10", "in-10", "out+10", "out-10"]
 GRID_TIERS = {"quick": ["g20x24"], "thorough": ["g20x24", "g12x16", "g24x36"]}
 
 
@@ -88,17 +85,49 @@ def units(tier):
     us = []
     for g in GRID_TIERS[tier]:
         for pair in PAIRS:
-            for dep in DEPTHS:
-                us.append({"name": f"{g}:{pair}:depth={dep}", "grid": g, "pair": pair, "depth": dep,
-                           "variants": VARIANTS[tier], "cost": 100})
+            # one unit per (grid, pair): the numba compilation of the inversion chain (about 1-2 min per
+            # process, cache=False) dominates, the enumeration itself takes seconds
+            us.append({"name": f"{g}:{pair}", "grid": g, "pair": pair, "variants": VARIANTS, "cost": 100})
     return us
 
 
 def members_of(unit):
-    """the member list of a unit: (hs, fp, mean) lattice plus the empty spectrum (hs = 0)."""
-    ms = [(hs, fp, mean) for hs in HS for fp in FP for mean in MEANS]
-    ms.append((0.0, 0.15, 0.0))
+    """the member list of a unit: (hs, fp, mean, depth, width) lattice, bimodal seas (a second JONSWAP lobe with
+    Hs/4, 2 fp, 60 degrees to the left: the only members whose dissipation-weighted direction is not fixed by
+    symmetry; marked by a negative width) and the empty spectrum (hs = 0); depth varies fastest so that every
+    batch mixes depths."""
+    t = unit["tier"]
+    ms = [(hs, fp, mean, dep, w) for w in WIDTHS[t] for hs in HS[t] for fp in FP[t] for mean in MEANS for dep in DEPTHS]
+    ms += [(2.0, 0.15, mean, dep, -30.0) for mean in MEANS for dep in DEPTHS]
+    ms.append((0.0, 0.15, 0.0, float("inf"), 30.0))
     return ms
+
+
+def member_spectrum(f, d, hs, fp, mean, w):
+    if hs <= 0:
+        return np.zeros((len(f), len(d)))
+    E = jonswap(f, fp, hs)[:, None] * raised_cosine(d, mean, abs(w))[None, :]
+    if w < 0:  # bimodal
+        E = E + jonswap(f, 2 * fp, hs / 4)[:, None] * raised_cosine(d, (mean + 60.0) % 360.0, abs(w))[None, :]
+    return E
+
+
+def wavenumber(omega, depth, g=9.81):
+    """omega^2 = g k tanh(k d) by Newton iteration in plain numpy (reference, not the library's solver)."""
+    k = omega ** 2 / g
+    if not math.isfinite(depth):
+        return k
+    k = np.maximum(k, omega / math.sqrt(g * depth))
+    for _ in range(60):
+        t = np.tanh(k * depth)
+        fk = g * k * t - omega ** 2
+        dfk = g * t + g * k * depth * (1 - t * t)
+        k = k - fk / dfk
+    return k
+
+
+def dkey(depth):
+    return "inf" if math.isinf(depth) else depth  # json-friendly, matchable from KNOWN_FINDINGS.json
 
 
 def steps(f, d):
@@ -111,14 +140,31 @@ def steps(f, d):
     return df, dd
 
 
+class _NoProgressBar:
+    def __init__(self, *args, **kwargs):
+        pass
+
+    def __enter__(self):
+        return None
+
+    def __exit__(self, *exc):
+        return False
+
+
 def run_unit(unit):
     import xarray
     from ocean_science_utilities.wavephysics.balance.factory import create_balance
     from ocean_science_utilities.wavephysics.windestimate import estimate_u10_from_source_terms
 
+    # seam (harness process only): numba_progress starts and joins an updater thread per call even when the bar is
+    # disabled (~0.4 s per inversion call); the bar is replaced by a context manager that hands None to the jitted
+    # loop, which the library code explicitly allows (`if progress_bar is not None`).
+    import ocean_science_utilities.wavephysics.balance.wind_inversion as _wi
+
+    _wi.ProgressBar = _NoProgressBar
+
     c = Collector()
-    g, pair, depth = unit["grid"], unit["pair"], unit["depth"]
-    dkey = "inf" if math.isinf(depth) else depth  # json-friendly, matchable from KNOWN_FINDINGS.json
+    g, pair = unit["grid"], unit["pair"]
     f, d = grid_axes(g)
     df, dd = steps(f, d)
     w2 = df[:, None] * dd[None, :]
@@ -127,8 +173,8 @@ def run_unit(unit):
     gen, dis = bal.generation, bal.dissipation
     mem = members_of(unit)
     n = len(mem)
-    E = np.array([(jonswap(f, fp, hs) if hs > 0 else np.zeros_like(f))[:, None] * raised_cosine(d, mean, WIDTH)[None, :]
-                  for hs, fp, mean in mem])
+    E = np.array([member_spectrum(f, d, hs, fp, mean, w) for hs, fp, mean, _, w in mem])
+    depth = np.array([m[3] for m in mem])
     spec_all = make_2d(f, d, E, depth=depth)
 
     def da(spec, x):
@@ -136,6 +182,14 @@ def run_unit(unit):
 
     diss = np.asarray(dis.bulk_rate(spec_all).values, dtype=float)
     mdir = np.asarray(dis.mean_direction_degrees(spec_all).values, dtype=float)
+    # independent reference for the dissipation-weighted mean wave direction: the public dissipation field weighted
+    # with the wavenumber of the reference dispersion solve
+    S = np.asarray(dis.rate(spec_all).values, dtype=float)
+    kref = np.array([wavenumber(2 * np.pi * f, dep) for dep in depth])
+    wgt = -S * kref[:, :, None] * w2[None]
+    kx = np.sum(wgt * np.cos(np.radians(d))[None, None, :], axis=(1, 2))
+    ky = np.sum(wgt * np.sin(np.radians(d))[None, None, :], axis=(1, 2))
+    refdir = np.degrees(np.arctan2(ky, kx)) % 360.0
     m0 = np.sum(E * w2[None], axis=(1, 2))
     worst = {"max_abs_root_error_estimate": 0.0}
 
@@ -143,14 +197,12 @@ def run_unit(unit):
         # ---- the rate-of-change spectrum of this variant --------------------------------------
         if variant == "none":
             dedt = None
-            dspec_all = None
         else:
             amp = (0.1 if variant.endswith("+10") else -0.1) * np.abs(diss)
             shape = E / np.where(m0 > 0, m0, 1.0)[:, None, None]
             if variant.startswith("out"):
                 shape = np.roll(shape, nd // 2, axis=2)
             dedt = amp[:, None, None] * shape
-            dspec_all = make_2d(f, d, dedt, depth=depth)
             c.cat("dedt_inside" if variant.startswith("in") else "dedt_outside", n)
 
         # ---- inversion in batches of 1..8 -----------------------------------------------------
@@ -161,15 +213,15 @@ def run_unit(unit):
         while start < n:
             idx = list(range(start, min(start + size, n)))
             c.cat(f"batch_size_{len(idx)}")
-            sb = make_2d(f, d, E[idx], depth=depth)
-            db = None if dedt is None else make_2d(f, d, dedt[idx], depth=depth)
+            sb = make_2d(f, d, E[idx], depth=depth[idx])
+            db = None if dedt is None else make_2d(f, d, dedt[idx], depth=depth[idx])
             try:
                 r = estimate_u10_from_source_terms(sb, bal, time_derivative_spectrum=db, direction_iteration=False)
                 u10[idx] = np.asarray(r["u10"].values, dtype=float)
                 rdir[idx] = np.asarray(r["direction"].values, dtype=float)
             except Exception as exc:  # noqa
                 failed[idx] = True
-                c.violation({"grid": g, "pair": pair, "depth": dkey, "dedt": variant, "check": "raises",
+                c.violation({"grid": g, "pair": pair, "dedt": variant, "check": "raises",
                              "members": [list(mem[i]) for i in idx]},
                             f"estimate_u10_from_source_terms raised {type(exc).__name__}: {exc}",
                             traceback=traceback.format_exc()[-1500:])
@@ -191,33 +243,44 @@ def run_unit(unit):
                 b = np.where(np.all(np.isfinite(rate), axis=(1, 2)), b, np.nan)
             return b
 
-        key0 = {"grid": g, "pair": pair, "depth": dkey, "dedt": variant}
-        for i, (hs, fp, mean) in enumerate(mem):
+        key0 = {"grid": g, "pair": pair, "dedt": variant}
+        for i, (hs, fp, mean, dep, w) in enumerate(mem):
             c.evaluations += 1
             c.cat("members")
             c.cat("pair_" + pair)
-            c.case([variant, hs, fp, mean])
-            if math.isfinite(depth):
+            c.case([variant, hs, fp, mean, dkey(dep), w])
+            if math.isfinite(dep):
                 c.cat("finite_depth")
 
         ok = ~failed
         pos = ok & np.isfinite(u10) & (u10 > 0) & (diss != 0.0)
         for i in np.nonzero(ok)[0]:
-            hs, fp, mean = mem[i]
-            key = dict(key0, hs=hs, fp=fp, mean=mean)
+            hs, fp, mean, dep, w = mem[i]
+            key = dict(key0, hs=hs, fp=fp, mean=mean, depth=dkey(dep), width=w)
             if diss[i] == 0.0:
                 if u10[i] == 0.0:
                     c.cat("zero_dissipation_u10_zero")
                 else:
                     c.violation(dict(key, check="zero_dissipation"),
-                                f"bulk dissipation is exactly 0 but u10={u10[i]!r} [{pair} Hs={hs} fp={fp} mean={mean} depth={depth}]")
+                                f"bulk dissipation is exactly 0 but u10={u10[i]!r} [{pair} Hs={hs} fp={fp} mean={mean} depth={dep} width={w}]")
                 continue
             # direction (well conditioned: dissipation is non-zero)
             c.cat("direction_checked")
-            if not (np.isfinite(rdir[i]) and float(angle_diff(rdir[i], mdir[i])) <= 1e-9):
+            # tolerance of the reference direction: exact arithmetic in deep water; at finite depth the library's
+            # wavenumber carries its solver tolerance (relative error <= 2e-3, C07), which can turn the
+            # resultant of a two-lobed field by at most 2e-3 rad = 0.115 degrees; symmetric (unimodal) members
+            # have their direction fixed by symmetry whatever the weights
+            tol_ref = 1e-6 if (math.isinf(dep) or w > 0) else 0.12
+            want = refdir[i] if w < 0 else mean
+            if w < 0:
+                c.cat("direction_checked_bimodal")
+            if not (np.isfinite(rdir[i]) and float(angle_diff(rdir[i], mdir[i])) <= 1e-9
+                    and float(angle_diff(rdir[i], want)) <= tol_ref and float(angle_diff(rdir[i], refdir[i])) <= max(tol_ref, 1e-6)):
                 c.violation(dict(key, check="direction"),
-                            f"reported direction {rdir[i]!r} != dissipation-weighted mean direction {mdir[i]!r} "
-                            f"[{pair} Hs={hs} fp={fp} mean={mean} depth={depth} dedt={variant}]")
+                            f"reported direction {rdir[i]!r}: dissipation.mean_direction_degrees gives {mdir[i]!r}, the "
+                            f"reference weighted direction is {refdir[i]!r}"
+                            + (f", symmetry demands {mean}" if w > 0 else "")
+                            + f" [{pair} Hs={hs} fp={fp} mean={mean} depth={dep} width={w} dedt={variant}]")
             if u10[i] != u10[i]:
                 c.cat("missing_result")
                 continue
@@ -230,7 +293,7 @@ def run_unit(unit):
         # balance at u10 + {-1,-1/2,0,1/2,1} delta for all members with a positive finite result at once
         if np.any(pos):
             ip = np.nonzero(pos)[0]
-            sp = make_2d(f, d, E[ip], depth=depth)
+            sp = make_2d(f, d, E[ip], depth=depth[ip])
             dv = None if dedt is None else dedt[ip]
             offs = [-DELTA, -DELTA / 2, 0.0, DELTA / 2, DELTA]
             Bs = []
@@ -241,7 +304,7 @@ def run_unit(unit):
                 except Exception:  # noqa  (roughness / stress may raise for some member: evaluate singly)
                     row = np.full(len(ip), np.nan)
                     for k, i in enumerate(ip):
-                        s1 = make_2d(f, d, E[[i]], depth=depth)
+                        s1 = make_2d(f, d, E[[i]], depth=depth[[i]])
                         try:
                             row[k] = balance(s1, None if dedt is None else dedt[[i]], diss[[i]], uu[[k]], rdir[[i]])[0]
                         except Exception:  # noqa
@@ -249,14 +312,14 @@ def run_unit(unit):
                     Bs.append(row)
             Bs = np.array(Bs)  # (5, members)
             for k, i in enumerate(ip):
-                hs, fp, mean = mem[i]
-                key = dict(key0, hs=hs, fp=fp, mean=mean)
+                hs, fp, mean, dep, w = mem[i]
+                key = dict(key0, hs=hs, fp=fp, mean=mean, depth=dkey(dep), width=w)
                 b = Bs[:, k]
                 if not np.all(np.isfinite(b)):
                     c.cat("balance_not_evaluable")
                     continue
                 c.cat("balance_checked")
-                c.nontriv((g, pair, depth, variant, hs, fp, mean))
+                c.nontriv((g, pair, dkey(dep), variant, hs, fp, mean, w))
                 if 2.0 <= u10[i] <= 40.0:
                     c.cat("root_in_2_40_and_finite")
                 sign_change = (b.min() <= 0.0 <= b.max())
@@ -277,7 +340,7 @@ def run_unit(unit):
                         f"u10={u10[i]:.4f} m/s does not close the balance: B(u10)/|dissipation| = {b[2] / abs(diss[i]):+.3g}, no "
                         f"sign change of B on [u10-0.05, u10+0.05]"
                         + (" (wind input is identically zero there: B = dissipation)" if flat else "")
-                        + f" [{pair} {g} Hs={hs} fp={fp} mean={mean} depth={depth} dedt={variant}]",
+                        + f" [{pair} {g} Hs={hs} fp={fp} mean={mean} depth={dep} width={w} dedt={variant}]",
                         u10=float(u10[i]), direction=float(rdir[i]), bulk_dissipation=float(diss[i]),
                         B=[float(x) for x in b], offsets=offs, flat_part=flat,
                     )
@@ -286,7 +349,7 @@ def run_unit(unit):
         miss = ok & (diss != 0.0) & np.isnan(u10)
         if np.any(miss):
             im = np.nonzero(miss)[0]
-            sm = make_2d(f, d, E[im], depth=depth)
+            sm = make_2d(f, d, E[im], depth=depth[im])
             dv = None if dedt is None else dedt[im]
             us = np.arange(2.0, 40.0 + 1e-9, 0.5)
 
@@ -296,7 +359,7 @@ def run_unit(unit):
                 except Exception:  # noqa
                     row = np.full(len(im), np.nan)
                     for k, i in enumerate(im):
-                        s1 = make_2d(f, d, E[[i]], depth=depth)
+                        s1 = make_2d(f, d, E[[i]], depth=depth[[i]])
                         try:
                             row[k] = balance(s1, None if dedt is None else dedt[[i]], diss[[i]], u[[k]], mdir[[i]])[0]
                         except Exception:  # noqa
@@ -332,8 +395,8 @@ def run_unit(unit):
                     bhi = np.where(left, bhi, bm)
                 lo, hi = l, h
             for k, i in enumerate(im):
-                hs, fp, mean = mem[i]
-                key = dict(key0, hs=hs, fp=fp, mean=mean)
+                hs, fp, mean, dep, w = mem[i]
+                key = dict(key0, hs=hs, fp=fp, mean=mean, depth=dkey(dep), width=w)
                 if not has[k]:
                     c.cat("missing_result_no_root_shown_in_2_40")
                     continue
@@ -342,18 +405,18 @@ def run_unit(unit):
                     c.cat("missing_result_sign_change_is_a_jump")
                     continue
                 c.cat("missing_result_root_in_2_40")
-                c.nontriv((g, pair, depth, variant, hs, fp, mean))
+                c.nontriv((g, pair, dkey(dep), variant, hs, fp, mean, w))
                 c.violation(
                     dict(key, check="degenerate"),
                     f"u10 is missing (NaN) although the balance has a root at {0.5 * (lo[k] + hi[k]):.3f} m/s "
-                    f"[{pair} {g} Hs={hs} fp={fp} mean={mean} depth={depth} dedt={variant}]",
+                    f"[{pair} {g} Hs={hs} fp={fp} mean={mean} depth={dep} width={w} dedt={variant}]",
                     root_bracket=[float(lo[k]), float(hi[k])], B_at_bracket=[float(blo[k]), float(bhi[k])],
                     bulk_dissipation=float(diss[i]),
                 )
         if len(c.samples) < 2:
             j = int(np.nonzero(pos)[0][0]) if np.any(pos) else 0
-            c.sample({"grid": g, "pair": pair, "depth": dkey, "dedt": variant, "hs": mem[j][0], "fp": mem[j][1],
-                      "mean": mem[j][2], "u10": float(u10[j]), "direction": float(rdir[j]),
+            c.sample({"grid": g, "pair": pair, "depth": dkey(mem[j][3]), "dedt": variant, "hs": mem[j][0],
+                      "fp": mem[j][1], "mean": mem[j][2], "width": mem[j][4], "u10": float(u10[j]), "direction": float(rdir[j]),
                       "bulk_dissipation": float(diss[j])})
     r = c.result()
     r["stats"] = worst
